@@ -20,7 +20,7 @@ code under test:
   pre-encoded string (own encoder) and inside the path after '?'.
 
 * dispatcher - `DispatcherMiddleware` for every mount table that is a subset of a universe of nested /
-  sibling / trailing-slash / root prefixes and every request path <= 6 characters over {'/', 'a', 'b'} (plus
+  sibling / trailing-slash / root prefixes and every request path <= 5 characters over {'/', 'a', 'b'} (plus
   longer segment paths), with and without an outer SCRIPT_NAME: the chosen application is the one of the longest mount `m`
   with `path == m or path.startswith(m + '/')`, SCRIPT_NAME' == SCRIPT_NAME + m, PATH_INFO' == path[len(m):],
   nothing else in the environ changes, and the response is passed through.
@@ -43,6 +43,44 @@ from werkzeug.middleware.dispatcher import DispatcherMiddleware
 from werkzeug.wsgi import get_current_url as wsgi_get_current_url
 
 common.assert_tree()
+
+# Failures on the unchanged tree (text of bounded/FINDINGS_C15.md in short; kept here so that it travels with the check).
+# 'check@shape': the shape is a syntactic class of the *input*, so one finding cannot use up another's failure slots.
+FINDINGS = """
+1 uri_to_iri_exception@bad_punycode_label (+ direct_...): uri_to_iri("http://xn--a.example/") raises UnicodeError
+  (also 'xn--zzzzzz-', 'xn--', 'xn--n3h-').  urls._decode_idna catches UnicodeDecodeError only, the idna codec raises
+  plain UnicodeError; the "leave invalid parts as punycode" fallback is never reached.  Reaches Request.url /
+  base_url / host_url via get_current_url (Host: xn--a.example -> UnicodeError).  In domain (ASCII host).  Genuine.
+2 uri_to_iri_idempotent@dangling_percent: uri_to_iri("http://example.com/%4%41") == ".../%4A", again -> ".../J"
+  (same in query, fragment, user, password; "%%34%31" -> "%41" -> "A").  A '%' that is not an escape followed by
+  an escape whose decoding completes it: the unquoted text is reinterpreted on the next pass.  Violates
+  idempotence, the one-step fixpoint and "invalid percent-escapes left quoted rather than reinterpreted".  Genuine.
+3 uri_to_iri_reparse_exception@escaped_bracket_in_userinfo: uri_to_iri("http://%5B@example.com/") ==
+  "http://[@example.com/", which urlsplit rejects (ValueError Invalid IPv6 URL) - so uri_to_iri / iri_to_uri of the
+  result raise.  '[' and ']' are netloc delimiters but not in the user keep-set ":@/?#".  Genuine (reserved
+  character of the component not left quoted).
+4 iri_to_uri_meaning_port@port_zero: iri_to_uri / uri_to_iri("http://example.com:0/") == "http://example.com/"
+  (`if parts.port:` is false for 0).  Meaning changes (port 0 -> default port).  By the title rather than a
+  clause of the statement; in domain (optional port).  Minor.
+5 iri_to_uri_meaning_userinfo@empty_user_with_password: "http://:pw@example.com/" -> "http://example.com/"
+  (`if parts.username:`) - the password is dropped.  Same class as 4.  Minor.
+6 environ_path_tabcrlf, environ_exception_tabcrlf: EnvironBuilder(path="/a\\nb\\tc") -> PATH_INFO "/abc",
+  Request.path "/abc"; path "/\\t/]" -> ValueError (it became "//]").  urlsplit removes tab / CR / LF (WHATWG).
+  "recovered exactly ... for all Unicode" fails by the letter; low severity.
+7 wsgi_get_current_url@non_ascii_path: wsgi.get_current_url(environ) for path "/ü", script root "/snöw" gives
+  "http://example.com/snÃ¶w/Ã¼" (Request.url is right): SCRIPT_NAME / PATH_INFO are passed to
+  sansio.utils.get_current_url without the latin-1 decoding dance.  wsgi.get_current_url is one of the property's
+  anchored mechanisms (URL reconstruction) but not one of its observation points (Request.*).  Genuine defect of that
+  function; whether it belongs to C15 is for the maintainer.
+8 environ_url@literal_percent_escape (+ environ_base_url@..., wsgi_get_current_url@...): EnvironBuilder(path="/%2541")
+  -> PATH_INFO "/%41", Request.path "/%41" (right), Request.url "http://localhost/A" (wrong; "/100%2525" -> path
+  "/100%25", url ".../100%25" which reads "/100%").  sansio.utils.get_current_url quotes the *decoded* path with
+  '%' in the safe set ("for things that are already quoted"), so a literal "%XX" in the path becomes an escape.
+  Directly in the statement (reconstructed URL recovered exactly); in domain.  Genuine.
+Observation, not reported as a failure (no clause covers it): EnvironBuilder(base_url="http://[::1]:5000/") sets
+SERVER_NAME "[" and SERVER_PORT "80" (server_name splits the host at the first ':'); Request.host is still right
+because HTTP_HOST is used.
+"""
 
 RULE = ("iri_to_uri: ASCII, idempotent, same independent meaning; uri_to_iri: idempotent, same meaning, own delimiters / "
         "unsafe / invalid bytes stay escaped; round trip stable after one step; EnvironBuilder -> Request recovers path, "
@@ -540,7 +578,7 @@ def _ascii_host(host):
     return ".".join(out)
 
 
-ENV_PATH_ATOMS = ["%FF", "%C3%28", "a", "b c", "ü", "☃", "\U0001f600", "%C3%BC", "%2F", "%3F", "%23", "%25", "%20", ";", "=", "&",
+ENV_PATH_ATOMS = ["%2541", "%2525", "%FF", "%C3%28", "a", "b c", "ü", "☃", "\U0001f600", "%C3%BC", "%2F", "%3F", "%23", "%25", "%20", ";", "=", "&",
                   "+", ":", "@", "[", "]", "\"", "<", "\\", "^", "|", "{", "}", "~", "'", "(", ")", "!", "*", ",", "$", ".",
                   "..", "́", " ", "\x01", "\x7f", "\xff", "Ā", "%E2%98%83", "%41", "//", "/", "é",
                   "�", "​", "﻿", "‮", "\t", "\n", "\r", "\x00", "\x1f", "\x85", " "]
@@ -713,7 +751,12 @@ def check_environ(path, query, base_url, mode, F, count=True):
             prob.append(("query", q2, exp_pairs))
         if f2 is not None or ui2 is not None:
             prob.append(("extra", val, "no fragment / userinfo"))
-        if prob and name.startswith("wsgi.") and "\ufffd" in want_root + want_path:
+        # '@literal_percent_escape': the decoded script root / path contains the text of an escape ('%' + 2 hex digits)
+        lit = "@literal_percent_escape" if _ESC.search(want_root + want_path) else ""
+        if prob and lit and all(x[0] == "path" for x in prob):
+            F.fail(("wsgi_get_current_url" if name.startswith("wsgi.") else "environ_" + name) + lit, inp,
+                   f"{name} = {val!r}: {prob!r}"[:500], "the URL of base_url + path + query")
+        elif prob and name.startswith("wsgi.") and "\ufffd" in want_root + want_path:
             pass  # invalid UTF-8 in the path: no exact expectation for the text form
         elif prob and name.startswith("wsgi."):
             # '@non_ascii_path': script root / path have a non-ASCII character (class of the input)
@@ -900,22 +943,18 @@ def _dispatch_task(args):
     tier, seed, k, nk = args
     F = _Fails()
     uni = MOUNT_UNIVERSE
-    maxlen = 6 if tier == "quick" else 8
+    maxlen = 5 if tier == "quick" else 8
     paths = list(_paths(maxlen)) + ["/a/b/a/b", "/a/b/a/", "/a/b/a/b/a/b", "/b/a/b/a", "/a//b/a", "/a/b//", "/ab/a/b",
-                                    "/ü/a", "/a/b?x", "/a/b/../a", "/A/b", "/a/B"]
-    idx = 0
+                                    "/ü/a", "/a/b?x", "/a/b/../a", "/A/b", "/a/B", "/a/b/a/a", "/a//b/", "//a/b/a"]
     nsub = 1 << len(uni)
     if tier == "quick":
-        # every subset of the universe x a deterministic third of the paths (offset by the subset), every path for
-        # subsets of size <= 3
+        # every subset of the universe x every path; the outer SCRIPT_NAME alternates with (path index + subset)
         for mask in range(nsub):
             if mask % nk != k:
                 continue
             mounts = [uni[i] for i in range(len(uni)) if mask >> i & 1]
-            small = len(mounts) <= 3
             for j, p in enumerate(paths):
-                if small or (j + mask) % 3 == 0:
-                    check_dispatch(mounts, p, None if (j + mask) % 2 else "/outer", F)
+                check_dispatch(mounts, p, None if (j + mask) % 2 else "/outer", F)
         return F
     for mask in range(nsub):
         if mask % nk != k:
@@ -933,13 +972,14 @@ def _domain(tier):
             "trailing dot) x 9 ports around a fixed tail; every atom and pair of atoms from a 75-atom alphabet (Unicode, "
             "valid / invalid / truncated UTF-8 escapes, malformed '%', every reserved character literal and escaped, "
             "controls, space) in path (2 positions), query (2 positions), fragment, user, password on a plain authority (single atoms also on an IDN authority with userinfo and port); 10 authorities x 14^2 two-segment paths and x 10 queries x 7 fragments of IRIs in normal form (exact round trip); 27^2 "
-            "two-segment paths x 6 queries x 4 fragments; 14 degenerate tails x 17 hosts.  environ: 59 path atoms and their "
+            "two-segment paths x 6 queries x 4 fragments; 14 degenerate tails x 17 hosts.  environ: 63 path atoms and their "
             "pairs as one and two segments, 27 base URLs (default / non-default ports, IDN, IPv6, script roots with escapes, "
             "None) x 7 paths x 4 query modes, 35^2 key x value query pairs x 5 modes (dict, MultiDict, own-encoded string, "
             "'?' in path, minimally encoded string) and 16^2 literal query-string spellings with invalid escapes (args only); Request.url / base_url / url_root / host_url and wsgi.get_current_url (4 forms) and repeated keys.  dispatcher: all 2^11 mount tables over {'/a','/a/b','/a/b/a','/b','/ab','/a/',"
             "'','/','/b/a','a','/a//b'} x request paths over {'/','a','b'} of length <= "
-            + ("6 (all paths for tables of <= 3 mounts, a rotating third otherwise)" if tier == "quick" else "8")
-            + " with and without an outer SCRIPT_NAME"
+            + ("5" if tier == "quick" else "8 (every path <= 6, a rotating quarter of the longer ones)")
+            + " plus 15 longer segment paths; outer SCRIPT_NAME absent / '/outer'" + (" / ''" if tier != "quick" else "")
+            + " alternating with the case index"
             + ("" if tier == "quick" else "; thorough adds 400k random URLs, every non-surrogate code point below U+3000 (a "
                "seventh above) literal and escaped in each component, 150k random environ triples and every code point "
                "below U+3000 (a fifth above) in path and query") + ".")
@@ -963,9 +1003,7 @@ def run(tier, seed, reg=None):
         for F in pool.imap(_dispatch_task_kind, tasks, chunksize=1):
             _merge(c, F)
     if tier != "quick":
-        c.exhaustive = False
-    else:
-        c.exhaustive = False  # the dispatcher path set is sampled for large tables (see domain)
+        c.exhaustive = False  # seeded random cases and sampled code points on top of the exhaustive part
     return c.result()
 
 
